@@ -40,7 +40,7 @@ fn ser_into<const N: usize>(r: &ctap2::Response, content: &[u8]) -> Result<Vec<u
     })
 }
 
-pub const CAPS: [usize; 327] = [1, 2, 3, 4, 5, 6, 7, 8, 9, 10, 11, 12, 13, 14, 15, 16, 17, 18, 19, 20, 21, 22, 23, 24, 25, 26, 27, 28, 29, 30, 31, 32, 33, 34, 35, 36, 37, 38, 39, 40, 41, 42, 43, 44, 45, 46, 47, 48, 49, 50, 51, 52, 53, 54, 55, 56, 57, 58, 59, 60, 61, 62, 63, 64, 65, 66, 67, 68, 69, 70, 71, 72, 73, 74, 75, 76, 77, 78, 79, 80, 81, 82, 83, 84, 85, 86, 87, 88, 89, 90, 91, 92, 93, 94, 95, 96, 97, 98, 99, 100, 101, 102, 103, 104, 105, 106, 107, 108, 109, 110, 111, 112, 113, 114, 115, 116, 117, 118, 119, 120, 121, 122, 123, 124, 125, 126, 127, 128, 129, 130, 131, 132, 133, 134, 135, 136, 137, 138, 139, 140, 141, 142, 143, 144, 145, 146, 147, 148, 149, 150, 151, 152, 153, 154, 155, 156, 157, 158, 159, 160, 161, 162, 163, 164, 165, 166, 167, 168, 169, 170, 171, 172, 173, 174, 175, 176, 177, 178, 179, 180, 181, 182, 183, 184, 185, 186, 187, 188, 189, 190, 191, 192, 193, 194, 195, 196, 197, 198, 199, 200, 201, 202, 203, 204, 205, 206, 207, 208, 209, 210, 211, 212, 213, 214, 215, 216, 217, 218, 219, 220, 221, 222, 223, 224, 225, 226, 227, 228, 229, 230, 231, 232, 233, 234, 235, 236, 237, 238, 239, 240, 241, 242, 243, 244, 245, 246, 247, 248, 249, 250, 251, 252, 253, 254, 255, 256, 257, 258, 259, 260, 261, 262, 263, 264, 265, 266, 267, 268, 269, 270, 271, 272, 273, 274, 275, 276, 277, 278, 279, 280, 281, 282, 283, 284, 285, 286, 287, 288, 289, 290, 291, 292, 293, 294, 295, 296, 297, 298, 299, 300, 301, 302, 303, 304, 305, 306, 307, 308, 309, 310, 311, 312, 313, 314, 315, 316, 317, 318, 319, 320, 1023, 1024, 1025, 3071, 3072, 3073, 7609];
+pub const CAPS: [usize; 342] = [1, 2, 3, 4, 5, 6, 7, 8, 9, 10, 11, 12, 13, 14, 15, 16, 17, 18, 19, 20, 21, 22, 23, 24, 25, 26, 27, 28, 29, 30, 31, 32, 33, 34, 35, 36, 37, 38, 39, 40, 41, 42, 43, 44, 45, 46, 47, 48, 49, 50, 51, 52, 53, 54, 55, 56, 57, 58, 59, 60, 61, 62, 63, 64, 65, 66, 67, 68, 69, 70, 71, 72, 73, 74, 75, 76, 77, 78, 79, 80, 81, 82, 83, 84, 85, 86, 87, 88, 89, 90, 91, 92, 93, 94, 95, 96, 97, 98, 99, 100, 101, 102, 103, 104, 105, 106, 107, 108, 109, 110, 111, 112, 113, 114, 115, 116, 117, 118, 119, 120, 121, 122, 123, 124, 125, 126, 127, 128, 129, 130, 131, 132, 133, 134, 135, 136, 137, 138, 139, 140, 141, 142, 143, 144, 145, 146, 147, 148, 149, 150, 151, 152, 153, 154, 155, 156, 157, 158, 159, 160, 161, 162, 163, 164, 165, 166, 167, 168, 169, 170, 171, 172, 173, 174, 175, 176, 177, 178, 179, 180, 181, 182, 183, 184, 185, 186, 187, 188, 189, 190, 191, 192, 193, 194, 195, 196, 197, 198, 199, 200, 201, 202, 203, 204, 205, 206, 207, 208, 209, 210, 211, 212, 213, 214, 215, 216, 217, 218, 219, 220, 221, 222, 223, 224, 225, 226, 227, 228, 229, 230, 231, 232, 233, 234, 235, 236, 237, 238, 239, 240, 241, 242, 243, 244, 245, 246, 247, 248, 249, 250, 251, 252, 253, 254, 255, 256, 257, 258, 259, 260, 261, 262, 263, 264, 265, 266, 267, 268, 269, 270, 271, 272, 273, 274, 275, 276, 277, 278, 279, 280, 281, 282, 283, 284, 285, 286, 287, 288, 289, 290, 291, 292, 293, 294, 295, 296, 297, 298, 299, 300, 301, 302, 303, 304, 305, 306, 307, 308, 309, 310, 311, 312, 313, 314, 315, 316, 317, 318, 319, 320, 1023, 1024, 1025, 2047, 2048, 2049, 2095, 2096, 2097, 2560, 3071, 3072, 3073, 4095, 4096, 4097, 7609, 65535, 65536, 65537, 66000, 131072];
 
 pub fn ser_cap(n: usize, r: &ctap2::Response, prefill: u8) -> Result<Vec<u8>, String> {
     match n {
@@ -371,6 +371,21 @@ pub fn ser_cap(n: usize, r: &ctap2::Response, prefill: u8) -> Result<Vec<u8>, St
         3072 => ser::<3072>(r, prefill),
         3073 => ser::<3073>(r, prefill),
         7609 => ser::<7609>(r, prefill),
+        2047 => ser::<2047>(r, prefill),
+        2048 => ser::<2048>(r, prefill),
+        2049 => ser::<2049>(r, prefill),
+        2095 => ser::<2095>(r, prefill),
+        2096 => ser::<2096>(r, prefill),
+        2097 => ser::<2097>(r, prefill),
+        2560 => ser::<2560>(r, prefill),
+        4095 => ser::<4095>(r, prefill),
+        4096 => ser::<4096>(r, prefill),
+        4097 => ser::<4097>(r, prefill),
+        65535 => ser::<65535>(r, prefill),
+        65536 => ser::<65536>(r, prefill),
+        65537 => ser::<65537>(r, prefill),
+        66000 => ser::<66000>(r, prefill),
+        131072 => ser::<131072>(r, prefill),
         _ => machinery_panic("capacity not instantiated"),
     }
 }
@@ -508,6 +523,25 @@ pub fn build(g: &Gen) -> ctap2::Response {
             let view = refmodel::decode(&kind.schema(), &plan.build(masks[l].1, &[])).unwrap().unwrap();
             kind.build(&view)
         }
+        f if f.starts_with("ladder:") => {
+            // "ladder:<kind index>": len = 2k (first k optional members present) or 2k+1 (last k)
+            let k: usize = f[7..].parse().unwrap();
+            let kind = RKINDS[k];
+            let plan = Plan::new(&kind.schema(), Side::Response);
+            let view = refmodel::decode(&kind.schema(), &plan.build(ladder_mask(&plan, l), &[])).unwrap().unwrap();
+            kind.build(&view)
+        }
+        f if f.starts_with("max:") => {
+            // "max:<kind index>": every member present, every leaf at its longest menu value
+            let k: usize = f[4..].parse().unwrap();
+            let kind = RKINDS[k];
+            let plan = Plan::new(&kind.schema(), Side::Response);
+            let devs: Vec<(usize, usize)> = plan.leaves.iter().enumerate().map(|(li, info)| (li, (0..info.menu.len()).max_by_key(|i| crate::refcbor::encode(&info.menu[*i]).len()).unwrap())).collect();
+            // l = 0: all at once; l = 1 + leaf: only that leaf at its longest
+            let devs: Vec<(usize, usize)> = if l == 0 { devs } else { vec![devs[l - 1]] };
+            let view = refmodel::decode(&kind.schema(), &plan.build(plan.full_mask(), &devs)).unwrap().unwrap();
+            kind.build(&view)
+        }
         "getinfo-algs" => {
             // GetInfo with only the required members and `algorithms` set to the l-th menu value
             let plan = Plan::new(&get_info_response(), Side::Response);
@@ -525,8 +559,35 @@ pub fn build(g: &Gen) -> ctap2::Response {
     }
 }
 
+/// first k (even l) or last k (odd l) optional members present, parents added where needed
+fn ladder_mask(plan: &Plan, l: usize) -> u64 {
+    let n = plan.opts.len();
+    let k = (l / 2).min(n);
+    let mut mask = 0u64;
+    for j in 0..k {
+        let bit = if l % 2 == 0 { j } else { n - 1 - j };
+        mask |= 1u64 << bit;
+        let mut p = plan.opts[bit].parent;
+        while let Some(pp) = p {
+            mask |= 1u64 << pp;
+            p = plan.opts[pp].parent;
+        }
+    }
+    mask
+}
+
 fn family_range(f: &'static str) -> Vec<usize> {
     match f {
+        f if f.starts_with("ladder:") => {
+            let k: usize = f[7..].parse().unwrap();
+            let plan = Plan::new(&RKINDS[k].schema(), Side::Response);
+            (0..2 * plan.opts.len() + 2).collect()
+        }
+        f if f.starts_with("max:") => {
+            let k: usize = f[4..].parse().unwrap();
+            let plan = Plan::new(&RKINDS[k].schema(), Side::Response);
+            (0..=plan.leaves.len()).collect()
+        }
         "cp-token" | "cp-token+key" => (0..=48).collect(),
         "ga-authdata" | "gna-authdata" | "mc-authdata+x5c" => (0..=AUTH_DATA_MAX).collect(),
         "lb-config" => (0..=lb_fragment_max()).collect(),
@@ -547,7 +608,7 @@ fn family_range(f: &'static str) -> Vec<usize> {
     }
 }
 
-pub const FAMILIES: [&str; 24] = ["getinfo-algs", "seed:0", "seed:1", "seed:2", "seed:3", "seed:4", "seed:5", "seed:6", "cm-rp", "ga-x5c", "reset", "selection", "vendor", "cp-empty", "cm-empty", "lb-empty", "cp-token", "cp-token+key", "ga-authdata", "gna-authdata", "mc-authdata+x5c", "lb-config", "cm-count", "getinfo"];
+pub const FAMILIES: [&str; 38] = ["getinfo-algs", "seed:0", "seed:1", "seed:2", "seed:3", "seed:4", "seed:5", "seed:6", "cm-rp", "ga-x5c", "reset", "selection", "vendor", "cp-empty", "cm-empty", "lb-empty", "cp-token", "cp-token+key", "ga-authdata", "gna-authdata", "mc-authdata+x5c", "lb-config", "cm-count", "getinfo", "ladder:0", "ladder:1", "ladder:2", "ladder:3", "ladder:4", "ladder:5", "ladder:6", "max:0", "max:1", "max:2", "max:3", "max:4", "max:5", "max:6"];
 
 pub fn check(g: &Gen, n: usize, prefill: u8) -> Verdict {
     let r = build(g);
@@ -671,7 +732,7 @@ pub fn run(ctx: &'static Ctx) {
         let mut sizes_hit = std::collections::BTreeSet::new();
         for (i, (g, size)) in sized.iter().enumerate() {
             let near = *size + 3 >= n && *size <= n + 2;
-            let fixed = g.family.starts_with("seed:") || matches!(g.family, "getinfo-algs" | "reset" | "selection" | "vendor" | "cp-empty" | "cm-empty" | "lb-empty" | "cm-count" | "getinfo") || (g.len == family_range(g.family).last().copied().unwrap_or(0));
+            let fixed = g.family.starts_with("seed:") || g.family.starts_with("ladder:") || g.family.starts_with("max:") || matches!(g.family, "getinfo-algs" | "reset" | "selection" | "vendor" | "cp-empty" | "cm-empty" | "lb-empty" | "cm-count" | "getinfo") || (g.len == family_range(g.family).last().copied().unwrap_or(0));
             if near || fixed {
                 if near {
                     sizes_hit.insert(*size);
